@@ -68,7 +68,7 @@ def run_cell(arg):
         be, dt = c["backend"], c["dtype"]
         eps = 2.0 ** -23 if dt == "float32" else 2.0 ** -52
         xp = flow_xp(be)
-        tag = f"{be}|{c['bounded']}|{'affine' if c['affine'] else 'noaffine'}|{dt}|{c['state']}"
+        tag = f"{be}|{c['bounded']}|{'affine' if c['affine'] else 'noaffine'}|{dt}|{c['state']}" + ("|refit" if c.get("refit") else "")
         scen = {"builder": "density_cell", "params": {"cell": c}}
         rng = np.random.default_rng(7)
         data = np.stack([rng.uniform(-1.5, 2.5, 96), rng.uniform(1.0, 4.0, 96)], axis=1)
@@ -77,6 +77,14 @@ def run_cell(arg):
                                bounded_transform=c["bounded"] if c["bounded"] != "off" else "logit",
                                affine_transform=c["affine"], xp=xp, dtype=dt)
             fl = build_flow(be, dt, tr)
+            if c.get("refit"):
+                other = np.stack([rng.uniform(0.0, 0.5, 96), rng.uniform(2.0, 2.2, 96)], axis=1)   # much narrower
+                if c["state"] == "untrained":
+                    fl.fit_data_transform(xp.asarray(np.asarray(other, dtype=dt)))
+                elif be == "zuko":
+                    fl.fit(other, n_epochs=1, batch_size=48)
+                else:
+                    fl.fit(other, max_epochs=1, batch_size=48, show_progress=False)
             if c["state"] == "untrained":
                 fl.fit_data_transform(xp.asarray(np.asarray(data, dtype=dt)))
             else:
@@ -86,6 +94,23 @@ def run_cell(arg):
                     fl.fit(data, max_epochs=2, batch_size=48, show_progress=False)
             probe = data[:24]
             lp_before = np.asarray(smcdrv.to_np(fl.log_prob(probe)), dtype=np.float64)
+            # JacobianIncluded with the real transform: log_prob(x) = base(T(x)) + J_T(x), where T is an
+            # independent copy of the data transform fitted once on the data of the last fit
+            tr2 = FlowTransform(parameters=["a", "b"], prior_bounds=BOUNDS, bounded_to_unbounded=c["bounded"] != "off",
+                                bounded_transform=c["bounded"] if c["bounded"] != "off" else "logit",
+                                affine_transform=c["affine"], xp=xp, dtype=dt)
+            tr2.fit(xp.asarray(np.asarray(data, dtype=dt)))
+            xpr, jref = tr2.forward(xp.asarray(np.asarray(probe, dtype=dt)))
+            if be == "zuko":
+                import torch
+                with torch.no_grad():
+                    base = fl._flow().log_prob(xpr)
+            else:
+                base = fl._flow.log_prob(xpr)
+            ref_lp = np.asarray(smcdrv.to_np(base), dtype=np.float64) + np.asarray(smcdrv.to_np(jref), dtype=np.float64)
+            tolj = 512 * eps * np.maximum(1.0, np.abs(ref_lp)) * (8 if c["bounded"] != "off" else 1)
+            if ref_lp.shape != lp_before.shape or not np.all(np.abs(ref_lp - lp_before) <= tolj):
+                out["viol"].append((f"JacobianIncluded|real-transform|{tag}", f"log_prob(x) != base(T(x)) + log|det dT/dx| with T fitted on the data of the last fit (max diff {np.max(np.abs(ref_lp - lp_before)):.3g}; refit={c.get('refit')})"))
             if c["state"] == "reloaded":
                 path = str(wd / "f.h5")
                 with h5py.File(path, "w") as f:
@@ -169,7 +194,7 @@ def main(prop, tier, seed, replay_path=None):
         must = [c for c in cells if c["state"] == "untrained" and c["bounded"] == "off" and not c["affine"]]
         rest = [c for c in cells if c not in must]
         rnd.shuffle(rest)
-        todo = must + rest[:28]
+        todo = must + rest[:36]
     else:
         todo = cells
     args = [(i, c, spec["shift_log_prob"], spec["shift_sample_log_q"]) for i, c in enumerate(todo)]
